@@ -50,9 +50,9 @@ Proof.
   destruct (aget prefix_eqb (s_pools s) c); [eapply frame_trans; [apply frame_set_pools|apply P]|apply frame_refl].
 Qed.
 
-Lemma frame_on_node : forall f s n v, frame s (on_node f s n v).
+Lemma frame_on_node_forced : forall f s n v, frame s (on_node_forced f s n v).
 Proof.
-  intros f s n v. rewrite on_node_eq. cbv zeta. destruct (opt_eqb _ _ _); [apply frame_refl|].
+  intros f s n v. rewrite on_node_forced_eq. cbv zeta.
   eapply frame_trans; [|unfold st4; apply frame_fold; intros s0 x; destruct (N.eqb _ _); [apply frame_mark|apply frame_refl]].
   set (old := aget N.eqb (s_nodes s) n). set (new := option_map ninfo_of v).
   assert (F1 : frame s (st1 f s n old new)).
@@ -70,6 +70,9 @@ Proof.
     apply frame_upd. intros []; split; reflexivity. }
   eapply frame_trans; [exact F1|]. eapply frame_trans; [apply F2|apply F3].
 Qed.
+
+Lemma frame_on_node : forall f s n v, frame s (on_node f s n v).
+Proof. intros f s n v. unfold on_node. destruct (node_unchanged s n v); [apply frame_refl|apply frame_on_node_forced]. Qed.
 
 Lemma frame_flush : forall s, frame s (flush s).
 Proof.
@@ -234,13 +237,12 @@ Section Sep.
     - unfold nr_remove. destruct (aget _ _ _) as [[|[|n]]|]; apply U.
   Qed.
 
-  Lemma on_wep_inv : forall s id cs, (forall c, In c cs -> plen c = 32%nat) ->
+  Lemma on_wep_forced_inv : forall s id cs, (forall c, In c cs -> plen c = 32%nat) ->
     nrb s -> cc BK s -> wwi s -> weps32 s ->
-    nrb (on_wep s id cs) /\ cc BK (on_wep s id cs) /\ wwi (on_wep s id cs) /\ weps32 (on_wep s id cs).
+    nrb (on_wep_forced s id cs) /\ cc BK (on_wep_forced s id cs) /\ wwi (on_wep_forced s id cs) /\ weps32 (on_wep_forced s id cs).
   Proof.
-    intros s id cs H32 NRB CC WW W32. rewrite on_wep_eq. cbv zeta.
+    intros s id cs H32 NRB CC WW W32. rewrite on_wep_forced_eq. cbv zeta.
     set (old := match aget N.eqb (s_weps s) id with Some l => l | None => [] end).
-    destruct (list_eqb prefix_eqb old cs); [auto|].
     set (s1 := fold_left wep_add cs s).
     assert (NRB1 : nrb s1).
     { unfold s1. clear - NRB. revert s NRB. induction cs as [|x l IH]; intros s NRB; [exact NRB|]. cbn [fold_left]. apply IH. now apply nrb_wep_add. }
@@ -275,6 +277,13 @@ Section Sep.
         * exact (W32 id' l c A).
   Qed.
 
+  Lemma on_wep_inv : forall s id cs, (forall c, In c cs -> plen c = 32%nat) ->
+    nrb s -> cc BK s -> wwi s -> weps32 s ->
+    nrb (on_wep s id cs) /\ cc BK (on_wep s id cs) /\ wwi (on_wep s id cs) /\ weps32 (on_wep s id cs).
+  Proof.
+    intros s id cs H32 NRB CC WW W32. unfold on_wep. destruct (wep_unchanged s id cs); [auto|now apply on_wep_forced_inv].
+  Qed.
+
   (* ---------------------------------------------------------------- one step, any history *)
   Lemma inv_step : forall s o, inv s -> hop_ok o -> inv (apply_op true s o).
   Proof.
@@ -296,6 +305,23 @@ Section Sep.
       constructor; [reflexivity|exact OUT|eapply nrb_frame|eapply cc_frame|eapply wwi_frame|eapply w32_frame]; eassumption.
     - destruct (on_wep_inv s id cs OK INR ICC IWW IW32) as (A & B & C & D).
       pose proof (frame_flush (on_wep s id cs)) as F.
+      constructor; [reflexivity|exact OUT|eapply nrb_frame|eapply cc_frame|eapply wwi_frame|eapply w32_frame]; eassumption.
+  Qed.
+
+  Definition fhop_ok (x : fop) : Prop := match x with FOp _ o => hop_ok o end.
+
+  Lemma inv_fstep : forall s x, inv s -> fhop_ok x -> inv (apply_fop true s x).
+  Proof.
+    intros s [force o] I OK. simpl in OK. destruct force; [|now apply inv_step].
+    destruct o as [c v|c v|m v|id cs]; cbn [apply_fop]; try (now apply inv_step).
+    - destruct I as [ID IO INR ICC IWW IW32].
+      assert (OUT : out_ok (apply_fop true s (FOp true (OpNode m v)))) by (apply fop_keeps_out_ok; simpl; auto; now apply nrb_cov).
+      pose proof (frame_trans _ _ _ (frame_on_node_forced true s m v) (frame_flush _)) as F.
+      constructor; [reflexivity|exact OUT|eapply nrb_frame|eapply cc_frame|eapply wwi_frame|eapply w32_frame]; eassumption.
+    - destruct I as [ID IO INR ICC IWW IW32].
+      assert (OUT : out_ok (apply_fop true s (FOp true (OpWep id cs)))) by (apply fop_keeps_out_ok; simpl; auto; now apply nrb_cov).
+      destruct (on_wep_forced_inv s id cs OK INR ICC IWW IW32) as (A & B & C & D).
+      pose proof (frame_flush (on_wep_forced s id cs)) as F.
       constructor; [reflexivity|exact OUT|eapply nrb_frame|eapply cc_frame|eapply wwi_frame|eapply w32_frame]; eassumption.
   Qed.
 
